@@ -930,6 +930,12 @@ func judge(cs Case, res ProbeResult, srcPre, dstPre, srcPost, dstPost snap, oc *
 			return cs.key("nil-dest-mismatch"), "after a nil return the destination holds exactly the bytes the source held before the call (" + srcPre.String() + ")",
 				"returned nil; " + state
 		}
+		if cs.Op == "move" && !isAlias(cs.Dst) && srcPost.Kind != "missing" {
+			// (a destination that is another name of the source file is left out: rename(2) of two
+			// hard links of one file is a successful no-op)
+			return cs.key("nil-source-not-removed"), "after a nil return of MoveFile the destination holds the bytes and the source path is gone (MoveFile removes the source once the destination is complete)",
+				"returned nil, the source is still there; " + state
+		}
 		return
 	}
 	// error return: only the source is protected
